@@ -51,8 +51,11 @@ func buildConfigs() []*Config {
 		switch shape {
 		case "catchup-notfound":
 			c.ExistingBid, c.BidQ = true, "notfound"
-		case "catchup-found":
-			c.ExistingBid, c.BidQ = true, "found"
+		case "catchup-found", "catchup-found-active", "catchup-found-lost", "catchup-found-closed":
+			c.ExistingBid, c.BidQ = true, "found-open"
+			if shape != "catchup-found" {
+				c.BidQ = strings.TrimPrefix(shape, "catchup-")
+			}
 		case "catchup-queryfails":
 			c.ExistingBid, c.Faults = true, []string{kBidQuery}
 		}
@@ -90,8 +93,21 @@ func buildConfigs() []*Config {
 		}
 	}
 	// a lease for ANOTHER group (won by this provider) must be ignored; the second event makes these large: no failures
-	add("quick", ladderBase, "new", true, false, 0, evOtherGroup, evShutdown)
-	add("quick", ladderBase, "catchup-queryfails", true, false, 0, evOtherGroup, evShutdown)
+	// (one event per id component in which the foreign lease differs from this order)
+	for _, ev := range []string{evOtherGroup, evOtherOwner, evOtherDSeq} {
+		add("quick", ladderBase, "new", true, false, 0, ev, evShutdown)
+	}
+	// Tier "probe" (run only by name, C13_CONFIG=...): a lease of this provider for ANOTHER ORDER (oseq) of the
+	// same group. order.go compares the group only, so it takes that lease as this order's win (signature
+	// foreign-lease-taken-as-win:oseq, reservation and bid left behind). Not part of the tiers because the chain
+	// cannot emit it while this order is live: x/market/keeper CreateOrder refuses a new order for a group that
+	// still has an open or matched one ("active order exists"), and the order's own closed / lease event comes
+	// first on the in-order bus. See /verif/build/fix-C13-lease-of-another-order-taken-as-win.diff.
+	add("probe", ladderBase, "new", true, false, 0, evOtherOSeq, evShutdown)
+	// the provider's own earlier bid found in a state other than open: never a second bid
+	for _, sh := range []string{"catchup-found-active", "catchup-found-lost", "catchup-found-closed"} {
+		add("quick", ladderBase, sh, true, false, 1, evShutdown)
+	}
 
 	// thorough: two failures (subsumes the quick configurations with one), deeper budgets ...
 	for _, sh := range shapes {
@@ -108,6 +124,16 @@ func buildConfigs() []*Config {
 			add("thorough", l, sh, false, false, 2, evClosed)
 		}
 		add("thorough", ladderBase, sh, true, false, 0, evOtherGroup, evShutdown)
+		if sh == "new" || sh == "catchup-notfound" {
+			for _, ev := range []string{evOtherOwner, evOtherDSeq} {
+				add("thorough", ladderBase, sh, true, false, 0, ev, evShutdown)
+			}
+		}
+	}
+	for _, sh := range []string{"catchup-found-active", "catchup-found-lost", "catchup-found-closed"} {
+		for _, ev := range []string{evClosed, evWon, evShutdown} {
+			add("thorough", ladder11, sh, true, false, 2, ev)
+		}
 	}
 	// ... and two competing terminating events (one failure), for the small shapes
 	for _, sh := range []string{"new", "catchup-queryfails"} {
@@ -394,7 +420,10 @@ func doParent(tier string, nworkers int, only string, d time.Duration, noEvid bo
 
 	var todo []*Config
 	for _, c := range configs {
-		if only != "" && c.Name != only {
+		if only != "" {
+			if c.Name == only && len(todo) == 0 { // by name: whatever its tier
+				todo = append(todo, c)
+			}
 			continue
 		}
 		if c.Tier == tier {
@@ -671,7 +700,8 @@ func doParent(tier string, nworkers int, only string, d time.Duration, noEvid bo
 				"one order, one group; every environment event at most once per execution; at most 1 (quick) / 2 (thorough) injected failures per execution; every call the monitor makes eventually completes",
 				"pricing.go (shell-script and random strategies) is not instrumented and is replaced by a scripted BidPricingStrategy returning the group maximum, maximum+1, or an error",
 				"'without the provider having won the lease' = no EventLeaseCreated for this order and this provider was published before the monitor terminated; 'released' / 'close-bid submitted' = an Unreserve call made after the successful Reserve / a MsgCloseBid broadcast call, whatever they return",
-				"the close-bid obligation is checked for bids created by THIS monitor (a successful MsgCreateBid broadcast), not for a bid found by the existing-bid query",
+				"the close-bid obligation is checked for bids created by THIS monitor (a successful MsgCreateBid broadcast), not for a bid found by the existing-bid query (found in state open / active / lost / closed: in every state no MsgCreateBid may follow - 'at most one bid' across restarts)",
+				"leases created for this provider that differ from the order in exactly one of owner / dseq / gseq are injected and must be ignored (LeaseWon only for the lease of this order and provider); a lease for ANOTHER ORDER (oseq) of the same group is not injected by the tiers: the chain never has two live orders in one group (x/market/keeper CreateOrder: 'active order exists') - order.go would take it as a win (configuration new-lease-otheroseq+shutdown-f0, tier 'probe')",
 			},
 		}
 		if err := evlib.Write(ev); err != nil {
